@@ -237,6 +237,25 @@ func (a *archetype) FreeTable(table *table) {
 	}
 }
 
+// removeFromTargets removes a freed table from the lookups by relation target.
+//
+// Required when a table is freed while its targets are still alive,
+// i.e. when the lookup entries are not dropped by RemoveTarget.
+func (a *archetype) removeFromTargets(table *table) {
+	for i := range table.columns {
+		column := &table.columns[i]
+		if !column.isRelation {
+			continue
+		}
+		if tables, ok := a.relationTables[i][column.target.id]; ok {
+			_ = tables.Remove(table.id)
+		}
+		if tables, ok := a.targetTables[column.target.id]; ok {
+			_ = tables.Remove(table.id)
+		}
+	}
+}
+
 // FreeAllTables frees all tables of the archetype.
 //
 // Does not clear the tables' contents.
